@@ -66,7 +66,7 @@ def make_files(ctx, fileset, n, skew, k):
 	return paths
 
 
-EXC_NAMES = ['timeout', 'eio', 'estale', 'interrupted', 'blocking', 'permission', 'memory', 'eof', 'stopiteration', 'cancelled', 'futures_timeout',
+EXC_NAMES = ['worker_killed', 'timeout', 'eio', 'estale', 'interrupted', 'blocking', 'permission', 'memory', 'eof', 'stopiteration', 'cancelled', 'futures_timeout',
              'broken_pool_lookalike', 'keyerror', 'assertion', 'unicode', 'value']
 
 
@@ -202,6 +202,8 @@ def run_case(case, ctx):
 		if fault['type'].startswith('exc:'):
 			# reading this file fails with a chosen exception class at a chosen moment (injected at SequenceFile.parse)
 			injected = fault['type'].split(':')
+			if injected[1] == 'worker_killed' and case['mode'] != 'processes':
+				injected[1] = 'eio'         # killing the process only makes sense where files are handled by worker processes
 		else:
 			paths[pos] = make_fault(ctx, fault['type'])
 	odd = case.get('odd') if fault is None else None
@@ -370,7 +372,7 @@ def gen_case(draw, tier):
 	mode = draw(st.sampled_from(['ordered', 'threads', 'processes', 'instant', 'none', 'ordered', 'threads', 'cli_create', 'reused_threads']))
 	fault = draw(st.one_of(st.none(), st.none(), st.builds(lambda p, t: {'pos': p, 'type': t}, st.integers(0, 7),
 	                                                        st.one_of(st.sampled_from(['missing', 'directory', 'truncated_gzip', 'bad_utf8', 'junk', 'text']),
-	                                                                  st.builds(lambda e, ph: f'exc:{e}:{ph}', st.sampled_from(EXC_NAMES), st.sampled_from(['call', 'enter', 'mid']))))))
+	                                                                  st.builds(lambda e, ph: f'exc:{e}:{ph}', st.sampled_from(EXC_NAMES + ['worker_killed'] * 8), st.sampled_from(['call', 'enter', 'mid']))))))
 	return {
 		'kind': 'sched', 'fileset': draw(st.integers(100, 140)), 'n': n, 'mode': mode,
 		'perm': draw(st.permutations(list(range(n)))), 'k': draw(st.sampled_from([6, 5, 8])),
